@@ -5,6 +5,7 @@
 -/
 import CachedModel.State
 import CachedModel.Ack
+import CachedModel.Locks
 
 namespace Cached
 
@@ -309,6 +310,21 @@ def drivePure (toks : List String) : String :=
      | _, _ => "R bad-pure-line")
   | _ => "R bad-pure-line"
 
+-- ---------- lock discipline (Layer L), lines `L edge <held> <wanted> <same>` / `L at <point> <held classes>` ----------
+
+def driveLocks (toks : List String) : String :=
+  match toks with
+  | ["edge", a, b, same] =>
+    (match Locks.Cls.ofName? a, Locks.Cls.ofName? b with
+     | some x, some y => if Locks.edgeAllowed x y (same == "1") then "R ok" else "R rank-violation"
+     | _, _ => "R unknown-lock-class")
+  | ["at", point, held] =>
+    if held == "-" then "R ok"
+    else if (held.splitOn ",").any (fun h => (Locks.Cls.ofName? h).isNone) then "R unknown-lock-class"
+    else if Locks.blockingChannelPoints.contains point then "R lock-held-at-blocking-channel-operation"
+    else "R ok"
+  | _ => "R bad-locks-line"
+
 structure DriverState where
   st : Option State := none
   broken : Bool := false     -- after an illegal oracle / event the rest of the case is skipped
@@ -321,6 +337,7 @@ def driveLine (d : DriverState) (line : String) : DriverState × Option String :
   | "#" :: _ => (d, some line.trimAscii.toString)
   | "A" :: rest => (d, some (driveAck rest))
   | "P" :: rest => (d, some (drivePure rest))
+  | "L" :: rest => (d, some (driveLocks rest))
   | "C" :: rest0 =>
     let rest := rest0.filter (fun t => !t.startsWith "#")
     (match parseCfg rest with
